@@ -7,7 +7,7 @@ From NS Require TablesOk.
 Definition judge_full (c : icase) : bool * bool * bool := (agree_full c, true, true).
 
 (* ---------------- C07: interpreter.Reconcile called directly ---------------- *)
-From NS Require Import Pairing.
+From NS Require Import Pairing MetaProofs.
 
 Record rcase := mk_rcase {
   rc_asset : string;
@@ -960,3 +960,73 @@ Definition prop_C20 (c : c20case) : bool :=
 
 Definition judge_C20 (c : c20case) : bool * bool * bool :=
   (agree_check (cl_check c) && agree_full (cl_run c), prop_C20 c, true).
+
+(* ======================= C13: exact meaning of values across texts ======================= *)
+From NS Require Import Conv Decimal.
+
+Record c13case := mk_c13case {
+  pc_text : string;                 (* a portion text of the literal grammar *)
+  pc_lit : icase;                   (* set_tx_meta("lit", TEXT) *)
+  pc_var : icase }.                 (* vars { portion $p }  set_tx_meta("var", $p)   with p = TEXT *)
+
+Definition txmeta_value (o : observed) (k : string) : option value :=
+  match o with ObsOk _ txm _ _ => alookup k txm | _ => None end.
+
+Definition find_ratio_arg (p : program) : option (Z * Z) :=
+  match p_stmts p with
+  | StFnCall f :: _ => match fc_args f with [_; ERatio _ n d] => Some (n, d) | _ => None end
+  | _ => None
+  end.
+
+Definition prop_C13_portion (c : c13case) : bool :=
+  match portion_denotes (pc_text c) with
+  | Some (n, Zpos d) =>
+      let q := n # d in
+      (match txmeta_value (ic_obs (pc_lit c)) "lit" with Some (VPortion x) => Qeq_bool x q | _ => false end)
+      && (if Qle_bool 0 q && Qle_bool q 1
+          then match txmeta_value (ic_obs (pc_var c)) "var" with Some (VPortion x) => Qeq_bool x q | _ => false end
+          else obs_is_err (ic_obs (pc_var c)) "BadPortionParsingErr")
+  | Some (_, _) =>       (* zero denominator: an error, never a crash, in both forms *)
+      obs_is_err (ic_obs (pc_lit c)) "BadPortionParsingErr" && obs_is_err (ic_obs (pc_var c)) "BadPortionParsingErr"
+  | None => false
+  end.
+
+Definition judge_C13_portion (c : c13case) : bool * bool * bool :=
+  (agree_full (pc_lit c) && agree_full (pc_var c)
+   && match find_ratio_arg (ic_prog (pc_lit c)), portion_literal (pc_text c) with
+      | Some (n, d), Some (n', d') => (n =? n') && (d =? d')
+      | None, _ => true          (* the literal did not reach the tree (parse error): judged by the predicate *)
+      | _, _ => false
+      end,
+   prop_C13_portion c, true).
+
+Record c13rt := mk_c13rt {
+  rt_type : string;
+  rt_first : icase;                 (* writes the value to account metadata and to transaction metadata *)
+  rt_json_text : string;            (* the transaction metadata value as serialised to JSON, decoded *)
+  rt_second : option icase;         (* reads it back through a metadata-backed variable of the same type *)
+  rt_plain : option icase }.        (* reads the same text as a plain variable *)
+
+Definition prop_C13_roundtrip (c : c13rt) : bool :=
+  match ic_obs (rt_first c) with
+  | ObsOk _ txm am _ =>
+      match alookup "k" txm, acc_meta_get am "acct" "k" with
+      | Some v, Some text =>
+          String.eqb text (rt_json_text c)
+          && (match rt_second c with
+              | Some s => match txmeta_value (ic_obs s) "back" with Some v' => value_eqb v v' | None => false end
+              | None => false end)
+          && (match rt_plain c with
+              | Some s => match txmeta_value (ic_obs s) "back" with Some v' => value_eqb v v' | None => false end
+              | None => false end)
+      | _, _ => false
+      end
+  | _ => true           (* the first script fails (ill-typed on purpose): nothing was written *)
+  end.
+
+Definition judge_C13_roundtrip (c : c13rt) : bool * bool * bool :=
+  (agree_full (rt_first c)
+   && match rt_second c with Some s => agree_full s | None => true end
+   && match rt_plain c with Some s => agree_full s | None => true end,
+   prop_C13_roundtrip c,
+   match ic_obs (rt_first c) with ObsOk _ _ _ _ => true | _ => false end).
